@@ -243,8 +243,27 @@ class Locals:
         elif isinstance(t, ast.Starred):
             self._bind_target(t.value, None, stmt, kind + "-unpack")
 
+    _MUTATORS = ("append", "extend", "add", "update", "insert", "pop", "clear", "remove", "discard", "setdefault", "sort", "reverse", "popitem")
+
+    def mutated(self) -> set:
+        """Names whose object is changed in place (method mutators, item assignment/deletion): never inlined."""
+        if not hasattr(self, "_mutated"):
+            m = set()
+            for n in walk_own(self.fn):
+                if isinstance(n, ast.Call) and isinstance(n.func, ast.Attribute) and n.func.attr in self._MUTATORS and isinstance(n.func.value, ast.Name):
+                    m.add(n.func.value.id)
+                elif isinstance(n, (ast.Assign, ast.AugAssign, ast.AnnAssign, ast.Delete)):
+                    tgs = n.targets if isinstance(n, (ast.Assign, ast.Delete)) else [n.target]
+                    for t in tgs:
+                        if isinstance(t, ast.Subscript) and isinstance(t.value, ast.Name):
+                            m.add(t.value.id)
+            self._mutated = m
+        return self._mutated
+
     def single(self, name: str) -> Optional[ast.AST]:
-        """The bound expression of a name that is assigned exactly once (plain assignment), else None."""
+        """The bound expression of a name that is assigned exactly once (plain assignment) and never mutated in place, else None."""
+        if name in self.mutated():
+            return None
         d = self.defs.get(name, [])
         if len(d) == 1 and d[0][0] == "assign" and d[0][1] is not None:
             return d[0][1]
@@ -340,3 +359,48 @@ def conjuncts(e: ast.AST, L: Optional["Locals"] = None, stop: Tuple[str, ...] = 
 
     go(e)
     return out
+
+
+def truthiness(e: ast.AST) -> Optional[Tuple[ast.AST, bool]]:
+    """Normal form of emptiness tests: returns (X, sense) when the expression is true exactly when `bool(X) == sense`.
+    `X`, `not X`, `X == ""`, `X != []`, `len(X) == 0`, `len(X) > 0`, `len(X) >= 1`, `not len(X)`, `bool(X)` ..."""
+    sense = True
+    while True:
+        if isinstance(e, ast.UnaryOp) and isinstance(e.op, ast.Not):
+            e, sense = e.operand, not sense
+            continue
+        if isinstance(e, ast.Call) and isinstance(e.func, ast.Name) and e.func.id == "bool" and len(e.args) == 1:
+            e = e.args[0]
+            continue
+        break
+    e = canon_compare(e)
+    if isinstance(e, ast.Compare) and len(e.ops) == 1:
+        left, op, right = e.left, e.ops[0], e.comparators[0]
+        empty_lit = (isinstance(right, ast.Constant) and right.value in ("", b"")) or (isinstance(right, (ast.List, ast.Tuple, ast.Dict, ast.Set)) and not getattr(right, "elts", getattr(right, "keys", [])))
+        is_len = isinstance(left, ast.Call) and isinstance(left.func, ast.Name) and left.func.id == "len" and len(left.args) == 1
+        if empty_lit and not is_len and isinstance(op, (ast.Eq, ast.NotEq)):
+            return left, (sense if isinstance(op, ast.NotEq) else not sense)
+        if is_len and isinstance(right, ast.Constant) and isinstance(right.value, int):
+            x = left.args[0]  # type: ignore[union-attr]
+            k = right.value
+            nonempty = None
+            if isinstance(op, ast.Eq) and k == 0:
+                nonempty = False
+            elif isinstance(op, ast.NotEq) and k == 0:
+                nonempty = True
+            elif isinstance(op, ast.Gt) and k == 0:
+                nonempty = True
+            elif isinstance(op, ast.GtE) and k == 1:
+                nonempty = True
+            elif isinstance(op, ast.Lt) and k == 1:
+                nonempty = False
+            elif isinstance(op, ast.LtE) and k == 0:
+                nonempty = False
+            if nonempty is not None:
+                return x, (sense if nonempty else not sense)
+        return None
+    if isinstance(e, ast.Call) and isinstance(e.func, ast.Name) and e.func.id == "len" and len(e.args) == 1:
+        return e.args[0], sense
+    if isinstance(e, (ast.Name, ast.Attribute, ast.Subscript)):
+        return e, sense
+    return None
